@@ -100,7 +100,7 @@ fn join(words: &[String], seps: &[String]) -> String {
 fn triple() -> BoxedStrategy<(String, String, String)> {
     let op = (any::<u8>(), any::<u16>(), select(WORDS).prop_map(str::to_string));
     (
-        sentence(6),
+        prop_oneof![16 => sentence(6), 1 => sentence(30)],
         proptest::collection::vec(op.clone(), 0..=3),
         proptest::collection::vec(op, 0..=3),
         0u8..8,
